@@ -33,7 +33,9 @@ VERIF_FAIL = [
     (r"constructor .* not satisfied|field access .* variant", "variant"),
     (r"failed to satisfy .*trait.* (ensures|requires)|trait method.* (ensures|postcondition)", "trait-ensures"),
     (r"may fail to meet its declared type invariant", "type-invariant"),
-    (r"cannot prove .*", "other"),
+    (r"unable to prove post-?condition of closure", "closure-ensures"),
+    (r"fails to satisfy `?callee\.requires", "closure-requires-at-call"),
+    (r"cannot prove .*|unable to prove .*", "other"),
 ]
 TOOL_LIMIT = [r"Resource limit \(rlimit\) exceeded", r"rlimit", r"not supported", r"unsupported", r"The verifier does not yet support", r"timed? ?out"]
 
